@@ -156,16 +156,28 @@ static void run() {
       if (ListOffsetArray64* r = dynamic_cast<ListOffsetArray64*>(x.get())) stack.push_back(r->broadcast_tooffsets64(o));
       else if (ListArray64* r = dynamic_cast<ListArray64*>(x.get())) stack.push_back(r->broadcast_tooffsets64(o));
       else if (RegularArray* r = dynamic_cast<RegularArray*>(x.get())) stack.push_back(r->broadcast_tooffsets64(o));
+      else if (ListOffsetArray32* r = dynamic_cast<ListOffsetArray32*>(x.get())) stack.push_back(r->broadcast_tooffsets64(o));
+      else if (ListOffsetArrayU32* r = dynamic_cast<ListOffsetArrayU32*>(x.get())) stack.push_back(r->broadcast_tooffsets64(o));
+      else if (ListArray32* r = dynamic_cast<ListArray32*>(x.get())) stack.push_back(r->broadcast_tooffsets64(o));
+      else if (ListArrayU32* r = dynamic_cast<ListArrayU32*>(x.get())) stack.push_back(r->broadcast_tooffsets64(o));
       else throw std::runtime_error("akrun: broadcast on a non-list node"); }
     else if (c == "tolistoffset64") { bool z = nint() != 0; ContentPtr x = pop();
       if (ListOffsetArray64* r = dynamic_cast<ListOffsetArray64*>(x.get())) stack.push_back(r->toListOffsetArray64(z));
       else if (ListArray64* r = dynamic_cast<ListArray64*>(x.get())) stack.push_back(r->toListOffsetArray64(z));
       else if (RegularArray* r = dynamic_cast<RegularArray*>(x.get())) stack.push_back(r->toListOffsetArray64(z));
+      else if (ListOffsetArray32* r = dynamic_cast<ListOffsetArray32*>(x.get())) stack.push_back(r->toListOffsetArray64(z));
+      else if (ListOffsetArrayU32* r = dynamic_cast<ListOffsetArrayU32*>(x.get())) stack.push_back(r->toListOffsetArray64(z));
+      else if (ListArray32* r = dynamic_cast<ListArray32*>(x.get())) stack.push_back(r->toListOffsetArray64(z));
+      else if (ListArrayU32* r = dynamic_cast<ListArrayU32*>(x.get())) stack.push_back(r->toListOffsetArray64(z));
       else throw std::runtime_error("akrun: tolistoffset64 on a non-list node"); }
     else if (c == "toregular") { ContentPtr x = pop();
       if (ListOffsetArray64* r = dynamic_cast<ListOffsetArray64*>(x.get())) stack.push_back(r->toRegularArray());
       else if (ListArray64* r = dynamic_cast<ListArray64*>(x.get())) stack.push_back(r->toRegularArray());
       else if (RegularArray* r = dynamic_cast<RegularArray*>(x.get())) stack.push_back(r->toRegularArray());
+      else if (ListOffsetArray32* r = dynamic_cast<ListOffsetArray32*>(x.get())) stack.push_back(r->toRegularArray());
+      else if (ListOffsetArrayU32* r = dynamic_cast<ListOffsetArrayU32*>(x.get())) stack.push_back(r->toRegularArray());
+      else if (ListArray32* r = dynamic_cast<ListArray32*>(x.get())) stack.push_back(r->toRegularArray());
+      else if (ListArrayU32* r = dynamic_cast<ListArrayU32*>(x.get())) stack.push_back(r->toRegularArray());
       else throw std::runtime_error("akrun: toregular on a non-list node"); }
     else if (c == "project") { ContentPtr x = pop();
       if (IndexedOptionArray64* r = dynamic_cast<IndexedOptionArray64*>(x.get())) stack.push_back(r->project());
